@@ -375,16 +375,19 @@ def Tbl.clamp : Tbl → Nat × Nat
 def encLookup (t : Array Nat) (h : Nat) : Option Nat :=
   (t[h / 256]?).map fun blk => blk / 2 ^ (8 * (h % 256)) % 256
 
-/-- One sixteenth of a table satisfies the checker (the unit of the generated kernel obligations). -/
+/-- `p i` for every `i < n`. -/
 def allBelow : Nat → (Nat → Bool) → Bool
   | 0, _ => true
   | n + 1, p => p n && allBelow n p
 
-def encChunkOk (t : Tbl) (k : Nat) : Bool :=
-  allBelow 4096 fun i =>
-    match encLookup t.enc (4096 * k + i) with
-    | some code => encChk t.fmt t.mode (4096 * k + i) code
-    | none => false
+/-- Block `b` (entries `256b … 256b+255`) of the table satisfies the checker. -/
+def encBlockOk (t : Tbl) (b : Nat) : Bool :=
+  match t.enc[b]? with
+  | some blk => allBelow 256 fun j => encChk t.fmt t.mode (256 * b + j) (blk / 2 ^ (8 * j) % 256)
+  | none => false
+
+/-- Sixteen blocks = 4096 entries: the unit of the kernel obligations in Proofs/C11_Enc_*.lean. -/
+def encChunkOk (t : Tbl) (k : Nat) : Bool := allBelow 16 fun b => encBlockOk t (16 * k + b)
 
 /-! ## ALG: encoders -/
 
